@@ -21,6 +21,7 @@ def run_case(ctx, case):
     rec.case(case, nontrivial=(p >= 1 and len(nodes) > 0))
     rec.count("request", "valid" if valid else "invalid")
     rec.count("weights", "rational" if W is not None else "polynomial")
+    impl(lambda: float_twin(U, P, W).knot_insert([float(x) for x in nodes]))     # float data first (cross-call caches)
     curve = make_curve(U, P, W)
     before = curve_state(curve)
     r = impl(lambda: curve.knot_insert(list(nodes)))
@@ -99,6 +100,10 @@ def run(ctx):
     run_case(ctx, ser(dict(kind="insert", U=[F(0), F(0), F(1, 2), F(1), F(1)], P=[(F(1),), (F(2),), (F(5),)], W=None, nodes=[F(0), F(1)])))
     for i in range(budget(ctx, 160, 2500)):
         U, P, W = rand_curve(rng, bigknots=(rng.random() < 0.1), force_zero=(i % 6 == 0))
+        if i % 7 == 3 and len(P[0]) > 1 and len(P) > 2:
+            P[-1] = P[0]                     # closed curve: first and last control point are the same object
+            if W is None:
+                W = [F(rng.randint(2, 9), rng.randint(1, 3)) for _ in P]
         nodes = gen_nodes(rng, U, valid=(i % 5 != 4))
         if not nodes:
             continue
